@@ -111,15 +111,15 @@ Pad(bk, nord, spread) ==
 (* a construction call: data (caller's order), nord, spread, opt and its argument              *)
 (*   opt = "bkpt" (arg: sequence), "placed" (arg: sequence), "bkspace" (arg: rational),         *)
 (*         "nbkpts" (arg: integer), "everyn" (arg: integer)                                     *)
-Breakpoints(data, opt, arg) ==
+RawBreakpoints(data, opt, arg) ==
   LET lo == QMinSeq(data)
       hi == QMaxSeq(data)
-      raw == CASE opt = "bkpt" -> FromExplicit(arg)
-               [] opt = "placed" -> FromPlaced(arg, lo, hi)
-               [] opt = "bkspace" -> FromSpacing(lo, hi, arg)
-               [] opt = "nbkpts" -> FromCount(lo, hi, arg)
-               [] opt = "everyn" -> FromEveryN(Sorted(data), arg)
-  IN CoverFix(raw, lo, hi)
+  IN CASE opt = "bkpt" -> FromExplicit(arg)
+       [] opt = "placed" -> FromPlaced(arg, lo, hi)
+       [] opt = "bkspace" -> FromSpacing(lo, hi, arg)
+       [] opt = "nbkpts" -> FromCount(lo, hi, arg)
+       [] opt = "everyn" -> FromEveryN(Sorted(data), arg)
+Breakpoints(data, opt, arg) == CoverFix(RawBreakpoints(data, opt, arg), QMinSeq(data), QMaxSeq(data))
 Knots(data, nord, spread, opt, arg) == Pad(Breakpoints(data, opt, arg), nord, spread)
 
 (* ---- the laws of the statement, for any knot vector t, order and data range ---- *)
@@ -215,6 +215,10 @@ MaxOf(S) == CHOOSE a \in S : \A b \in S : a >= b
 RECURSIVE SeqOfSet(_)
 SeqOfSet(S) == IF S = {} THEN <<>> ELSE LET a == MinOf(S) IN <<a>> \o SeqOfSet(S \ {a})
 ClampCell(t, nord, x) == IF QLt(x, Lo(t, nord)) THEN nord ELSE Len(t) - nord
+(* ... or, where empty cells lie at that end of the range, any cell up to the first non-empty one *)
+ClampCells(t, nord, x) ==
+  IF QLt(x, Lo(t, nord)) THEN nord..(IF Cells(t, nord) = {} THEN nord ELSE MinOf(Cells(t, nord)))
+  ELSE (IF Cells(t, nord) = {} THEN Len(t) - nord ELSE MaxOf(Cells(t, nord)))..(Len(t) - nord)
 RECURSIVE PerCell(_, _, _, _, _)
 PerCell(t, nord, cs, x, cells) ==
   IF cells = <<>> THEN <<>>
@@ -222,9 +226,11 @@ PerCell(t, nord, cs, x, cells) ==
        IN << [cell |-> cells[1], row |-> row,
               vals |-> Tup([q \in 1..Len(cs) |-> ValueOfRow(row, Ints(cs[q]), nord, cells[1])])] >>
           \o PerCell(t, nord, cs, x, Tail(cells))
+(* D-C08-3 (see the end of the module): the point sits on a repeated lowest breakpoint *)
+Dev_EmptyFirstCell(t, nord, x) == x = Lo(t, nord) /\ t[nord] = t[nord + 1]
 PointExp(t, nord, cs, x) ==
   [inr |-> MaskOf(t, nord, x), cand |-> PerCell(t, nord, cs, x, SeqOfSet(Cand(t, nord, x))),
-   clamp |-> ClampCell(t, nord, x)]
+   clamp |-> SeqOfSet(ClampCells(t, nord, x)), emptyfirst |-> Dev_EmptyFirstCell(t, nord, x)]
 RECURSIVE PointsExp(_, _, _, _)
 PointsExp(t, nord, cs, xs) ==
   IF xs = <<>> THEN <<>> ELSE <<PointExp(t, nord, cs, xs[1])>> \o PointsExp(t, nord, cs, Tail(xs))
@@ -296,8 +302,23 @@ Dev_EveryNUnclamped(nx, everyn) ==
 (* breakpoint range is a single point and does not cover the data                                *)
 Dev_EveryNSingle(nx, everyn) == nx \div everyn < 2
 (* D-C08-3: a point on the lowest breakpoint is attributed to the first cell even when that      *)
-(* cell is empty (lowest breakpoint repeated): 0/0, the value is NaN                             *)
-Dev_EmptyFirstCell(t, nord, x) == x = Lo(t, nord) /\ t[nord] = t[nord + 1]
+(* cell is empty (lowest breakpoint repeated): 0/0, the value is NaN.  Dev_EmptyFirstCell above. *)
 (* D-C08-4: everyn samples the data in the caller's order instead of sorted order *)
 Dev_EveryNUnsorted(data) == ~NonDecreasing(data)
+(* D-C08-5: when the highest breakpoint does not reach the highest datum and is repeated, the    *)
+(* FIRST of the equal highest breakpoints is raised (argmax): the knots decrease afterwards       *)
+Dev_CoverFixFirstMax(data, opt, arg) ==
+  LET raw == RawBreakpoints(data, opt, arg)
+      n == Len(raw)
+  IN n >= 2 /\ QLt(raw[n], QMaxSeq(data)) /\ raw[n - 1] = raw[n]
+(* the deviations a construction call is exposed to, and whether the documentation pins its     *)
+(* breakpoints down (every-n is documented for sorted data only; for unsorted data only the     *)
+(* laws of the statement are demanded)                                                           *)
+DevsOf(data, opt, arg) ==
+  (IF Dev_CoverFixFirstMax(data, opt, arg) THEN {"D-C08-5"} ELSE {})
+  \cup (IF opt # "everyn" THEN {}
+        ELSE (IF Dev_EveryNUnclamped(Len(data), arg) THEN {"D-C08-1"} ELSE {})
+             \cup (IF Dev_EveryNSingle(Len(data), arg) THEN {"D-C08-2"} ELSE {})
+             \cup (IF Dev_EveryNUnsorted(data) THEN {"D-C08-4"} ELSE {}))
+PinnedDown(data, opt) == opt # "everyn" \/ NonDecreasing(data)
 =============================================================================
